@@ -58,6 +58,86 @@ def Msg.p1? : Msg → Option Int
   | .p1 t => some t
   | _ => none
 
+/-! ## the time accessors of a message
+
+`MessagePayload.get_p1_time()` and `get_system_time_ns()` (python/fusion_engine_client/messages/defs.py), which
+`is_in_range` calls to find out what kind of message it was handed, on the members they read. -/
+
+/-- `SystemTimeSource` (messages/measurement_details.py): what the clock of `measurement_time` is. -/
+inductive TimeSource
+  | invalid
+  | p1Time
+  | timestampedOnReception
+  | senderSystemTime
+  | gpsTime
+  deriving DecidableEq, Repr
+
+/-- `MeasurementDetails`: its two `Timestamp` members (`none`: an invalid one, NaN) and the source of the first. -/
+structure Details where
+  measurementTime : Option Int
+  source : TimeSource
+  p1Time : Option Int
+  deriving DecidableEq, Repr
+
+/-- The object handed to `is_in_range`, reduced to the members the time accessors read. -/
+inductive Obj
+  /-- not a `MessagePayload` -/
+  | raw
+  /-- a payload whose `details` member is a `MeasurementDetails` (the sensor measurement messages) -/
+  | meas (d : Details)
+  /-- any other payload: its `p1_time` attribute (`none`: there is none, or it is `None`; `some none`: an invalid
+  `Timestamp`) and its `system_time_ns` attribute (`none`: there is none) -/
+  | plain (p1 : Option (Option Int)) (sys : Option Int)
+  deriving DecidableEq, Repr
+
+/-- `get_p1_time()`: `none` is Python's `None`, `some none` an invalid `Timestamp`.
+For a message with measurement details: `measurement_time` when its source is P1 time, else `details.p1_time`. -/
+def Obj.getP1Time : Obj → Option (Option Int)
+  | .raw => none
+  | .meas d => some (if d.source = .p1Time then d.measurementTime else d.p1Time)
+  | .plain p1 _ => p1
+
+/-- What `get_system_time_ns()` returns. -/
+inductive SysTime
+  /-- `None` -/
+  | none
+  /-- `numpy.nan` -/
+  | nan
+  /-- the `system_time_ns` attribute -/
+  | ns (v : Int)
+  /-- `float(measurement_time) * 1e9` for the measurement time `t` (in the resolution of the model) -/
+  | ofTime (t : Int)
+  deriving DecidableEq, Repr
+
+/-- `get_system_time_ns()`: for a message with measurement details the measurement time when it was stamped on
+reception (NaN when that `Timestamp` is invalid), else NaN; otherwise the `system_time_ns` attribute, if any. -/
+def Obj.getSystemTimeNs : Obj → SysTime
+  | .raw => .none
+  | .meas d =>
+    if d.source = .timestampedOnReception then
+      match d.measurementTime with
+      | some t => .ofTime t
+      | none => .nan
+    else .nan
+  | .plain _ sys =>
+    match sys with
+    | some v => .ns v
+    | none => .none
+
+/-- Lines 221-228 of `is_in_range`: the `isinstance` test and the call of `get_p1_time()`. -/
+def Obj.msg : Obj → Msg
+  | .raw => .raw
+  | .meas d =>
+    match (Obj.meas d).getP1Time with
+    | some (some t) => .p1 t
+    | some none => .invalidP1
+    | none => .noP1
+  | .plain p1 sys =>
+    match (Obj.plain p1 sys).getP1Time with
+    | some (some t) => .p1 t
+    | some none => .invalidP1
+    | none => .noP1
+
 /-- The only exception kind raised by this class. -/
 inductive TRErr
   | valueError
